@@ -44,6 +44,35 @@ theorem emptyOf_of_probeN {s : Stage} {v : Bytes} {n m : Nat} (h : s.probeN n = 
   | error e => rw [hp] at h0; cases h0
   | ok p => obtain ⟨a, k⟩ := p; rw [hp] at h0; simp only [Except.ok.injEq] at h0; simp [h0]
 
+/-! ### the touch -/
+
+@[simp] theorem timeTouches_real (rev : TimeRev) (c : Bool) (s : Bytes) : timeTouches rev c false s = false := by
+  simp [timeTouches]
+
+@[simp] theorem timeTouches_const (rev : TimeRev) (static : Bool) (s : Bytes) : timeTouches rev true static s = false := by
+  simp [timeTouches]
+
+@[simp] theorem timeTouches_empty (rev : TimeRev) (c static : Bool) : timeTouches rev c static [] = false := by
+  simp [timeTouches]
+
+theorem timeTouches_cur_static {s : Bytes} (h : s ≠ []) : timeTouches .cur false true s = true := by
+  simp [timeTouches, h]
+
+@[simp] theorem touchIf_false {α : Type} (c : Comp α) : touchIf false c = c := rfl
+
+theorem touchIf_true {α : Type} (c : Comp α) : touchIf true c = .getMatch (-1) fun _ => c := rfl
+
+/-- A touch is invisible to an evaluation (the answer is dropped). -/
+theorem run_touchIf {α : Type} (b : Bool) (c : Comp α) (ctx : Ctx) : (touchIf b c).run ctx = c.run ctx := by
+  cases b <;> rfl
+
+/-- …and counted by the monitor. -/
+theorem probeN_touchIf {α : Type} (b : Bool) (c : Comp α) (n : Nat) :
+    (touchIf b c).probeN n = c.probeN (if b then n + 1 else n) := by
+  cases b <;> rfl
+
+theorem constOf_ret (d : Bytes) : constOf (.ret d : Stage) = true := rfl
+
 /-! ### histories: static analyses are invisible when they only touch what real evaluations do not see -/
 
 /-- `π` projects the state onto what evaluations on input see; if they depend on the state through `π` only and a
@@ -106,7 +135,7 @@ theorem timeCache_hreal {L : Type} (lib : TimeLib L) (date : Stage) (st st' : Ti
   | error m => exact ⟨rfl, h⟩
   | ok s =>
     have := timeStep_cur_real lib (emptyOf date) s st st' h
-    simp only [Comp.run]
+    simp only [timeTouches_real, touchIf_false, Comp.run]
     exact ⟨by rw [this.1], this.2⟩
 
 theorem timeCache_probeStep {L : Type} (lib : TimeLib L) (date : Stage) (st : TimeSt L) :
@@ -117,7 +146,7 @@ theorem timeCache_probeStep {L : Type} (lib : TimeLib L) (date : Stage) (st : Ti
   | error m => rfl
   | ok p =>
     obtain ⟨v, n⟩ := p
-    simp only [Comp.probeN]
+    simp only [probeN_touchIf, Comp.probeN]
     exact timeStep_cur_static lib _ v st
 
 theorem time_probe_invisible {L : Type} (lib : TimeLib L) (date : Stage) (evs : List Ev) (st : TimeSt L) :
@@ -168,11 +197,12 @@ theorem runEvents_time_const {L : Type} (lib : TimeLib L) (d : Bytes) (evs : Lis
     cases e with
     | real ctx =>
       simp only [runEvents, List.filter_cons, Ev.isReal, if_true, List.map_cons, SComp.step, timeCache, timeCacheRev,
-        Comp.bind, Comp.run, he, timeStep_const lib d false TimeSt.fresh rfl]
+        Comp.bind, timeTouches_real, touchIf_false, Comp.run, he, timeStep_const lib d false TimeSt.fresh rfl]
       exact congrArg _ ih
     | probe =>
       simp only [runEvents, List.filter_cons, Ev.isReal, Bool.false_eq_true, if_false, SComp.probeStep, Comp.probe,
-        Comp.probeN, timeCache, timeCacheRev, Comp.bind, he, timeStep_const lib d true TimeSt.fresh rfl]
+        timeCache, timeCacheRev, Comp.bind, constOf_ret, timeTouches_const, touchIf_false, Comp.probeN, he,
+        timeStep_const lib d true TimeSt.fresh rfl]
       exact ih
 
 theorem time_optimize_events {L : Type} (lib : TimeLib L) (date : Stage) (evs : List Ev) :
@@ -211,7 +241,7 @@ theorem time_optimize_events {L : Type} (lib : TimeLib L) (date : Stage) (evs : 
       subst hd
       have hv : v = ownLayout lib d := by
         have he : emptyOf (.ret d : Stage) = d := rfl
-        rw [he, timeStep_const lib d true TimeSt.fresh rfl] at hf
+        rw [he, constOf_ret, timeTouches_const, touchIf_false, timeStep_const lib d true TimeSt.fresh rfl] at hf
         simp only [Comp.ret.injEq, Prod.mk.injEq] at hf
         exact hf.1.symm
       rw [runEvents_lit, runEvents_time_const, hv]
@@ -242,15 +272,16 @@ theorem timeOnElems_probe {L : Type} (lib : TimeLib L) (elems : List Stage) :
     | ok p =>
       obtain ⟨v, n'⟩ := p
       rw [hp] at h
-      simp only at h
+      simp only [probeN_touchIf] at h
       rw [sprobeN_bind] at h
-      cases hr : (timeOnElems .cur lib rest true (timeStep .cur lib [] true v st).2).probeN n' with
+      generalize (if timeTouches .cur false true v = true then n' + 1 else n') = n'' at h
+      cases hr : (timeOnElems .cur lib rest true (timeStep .cur lib [] true v st).2).probeN n'' with
       | error msg => rw [hr] at h; cases h
       | ok q =>
         obtain ⟨q1, m'⟩ := q
         rw [hr] at h
         simp only [Comp.probeN, Except.ok.injEq, Prod.mk.injEq] at h
-        have := ih _ n' q1 m' hr
+        have := ih _ n'' q1 m' hr
         rw [← h.1]; simp only; rw [this]; exact timeStep_cur_static lib [] v st
 
 theorem timeMap_probeStep {L : Type} (lib : TimeLib L) (elems : List Stage) (st : TimeSt L) :
@@ -282,7 +313,7 @@ theorem timeOnElems_real {L : Type} (lib : TimeLib L) (elems : List Stage) (ctx 
     cases e.run ctx with
     | error m => rfl
     | ok v =>
-      simp only
+      simp only [timeTouches_real, touchIf_false]
       rw [run_bind, run_bind]
       have hs := timeStep_cur_real lib [] v st st' h
       have := ih _ _ hs.2
